@@ -257,6 +257,15 @@ func descD(v ssa.Value, d int) string {
 				return "global:" + g.Name()
 			}
 			if a, ok := x.X.(*ssa.Alloc); ok {
+				// a parameter captured by a closure is spilled to an alloc initialised from the parameter:
+				// describe it as the parameter so that capturing it does not change any atom
+				for _, r := range *a.Referrers() {
+					if st, ok := r.(*ssa.Store); ok && st.Addr == a {
+						if p, ok := st.Val.(*ssa.Parameter); ok && p.Name() == a.Comment {
+							return "param:" + a.Comment
+						}
+					}
+				}
 				return "local:" + a.Comment
 			}
 			return "*" + descD(x.X, d+1)
